@@ -56,3 +56,17 @@ Theorem C06_vertical_geometry : forall sp g ns, layers_wf g ->
   (forall n, In n ns -> placed g n) -> chain_layers g ns -> chain_y_eq (assign_y sp g) sp ns.
 Proof. exact assign_y_chain. Qed.
 Print Assumptions C06_vertical_geometry.
+
+(* ---------- end to end (Proofs/E2E*.v, Whole*.v, NS*.v, Final.v): no premise besides hypotheses on the input ---------- *)
+From Autog Require Import Pipeline E2EBackbone E2EOutput WholeCrossings WholeOverlap WholeLayout Final.
+Local Open Scope Q_scope.
+
+
+(* [E4_statement alg sp g g'] (Proofs/E2EOutput.v): every non-self-loop edge satisfies E4_shape: Straight — exactly
+   the two end points; Polyline — start point, one bend per intermediate band (at a helper node beyond the input
+   arena, inside its band), end point: as many points as bands spanned plus one, y never decreasing; Ortho — every
+   segment horizontal or vertical, from the start point to the end point *)
+Theorem C06_component_end_to_end : forall o g g' x, component_input g -> options_ok o ->
+  layout_component o g = Ok (g', x) -> E4_statement (o_p5 o) (o_layer_spacing o) g g'.
+Proof. exact G4_route_shape. Qed.
+Print Assumptions C06_component_end_to_end.
